@@ -78,6 +78,11 @@ func c06Ops() []c06Op {
 		c06Op{"SetAddrHeaderIgnoreInvalid(Cc, valid+invalid)", func(m *mail.Msg) error { m.SetAddrHeaderIgnoreInvalid(mail.HeaderCc, c06A2.str(), c06Bad); return nil }, resync},
 		c06Op{"SetAddrHeader(From, two: first wins)", func(m *mail.Msg) error { return m.SetAddrHeader(mail.HeaderFrom, c06A1.str(), c06A0.str()) }, set("From", c06A1)},
 	)
+	// local parts that are only legal as quoted-string (parentheses, brackets): the envelope must name exactly them
+	ops = append(ops,
+		c06Op{"AddTo(quoted local part with parentheses)", func(m *mail.Msg) error { return m.AddTo(`"ops(oncall)"@x.example`) }, appendTo("To", na{"", "ops(oncall)@x.example"})},
+		c06Op{"From(quoted local part with brackets)", func(m *mail.Msg) error { return m.From(`"list[eu]"@x.example`) }, set("From", na{"", "list[eu]@x.example"})},
+	)
 	// renderings and a send in the middle of the sequence: they must not change what later calls mean
 	ops = append(ops,
 		c06Op{"(render)", func(m *mail.Msg) error { var b bytes.Buffer; _, err := m.WriteTo(&b); return err }, func(ref map[string][]na) bool { return true }},
@@ -150,7 +155,7 @@ func parseAddrList(v string) ([]na, error) {
 		}
 		lt := strings.LastIndexByte(it, '<')
 		if lt < 0 {
-			out = append(out, na{"", it})
+			out = append(out, na{"", unquoteLocal(it)})
 			continue
 		}
 		if !strings.HasSuffix(it, ">") {
@@ -161,9 +166,31 @@ func parseAddrList(v string) ([]na, error) {
 		if err != nil {
 			return nil, err
 		}
-		out = append(out, na{name, addr})
+		out = append(out, na{name, unquoteLocal(addr)})
 	}
 	return out, nil
+}
+
+// unquoteLocal turns "local part"@domain (RFC 5322 quoted-string local part) into the plain form the Msg getters use.
+func unquoteLocal(addr string) string {
+	if !strings.HasPrefix(addr, `"`) {
+		return addr
+	}
+	var b strings.Builder
+	i := 1
+	for i < len(addr) {
+		switch {
+		case addr[i] == '\\' && i+1 < len(addr):
+			b.WriteByte(addr[i+1])
+			i += 2
+		case addr[i] == '"':
+			return b.String() + addr[i+1:]
+		default:
+			b.WriteByte(addr[i])
+			i++
+		}
+	}
+	return addr
 }
 
 func sameList(a, b []na) bool {
